@@ -300,6 +300,14 @@ def or_form(prog: Program) -> RuleResult:
     return r
 
 
+def _qc_path(prog):
+    # 'the(...) succeeds exactly when there is one such assignment and result-count constraints see the true number of solutions': the
+    # counter the constraints read is incremented once per solution handed on
+    from .c09 import qc_path
+
+    return qc_path(prog)
+
+
 def _hv_truth(prog):
     # a solution / binding / argument whose value is falsy is a value like any other: bound values are asked for presence, not for truth
     from .hvtruth import hv_truth
@@ -325,4 +333,4 @@ def run(prog: Program, tier: str) -> List[RuleResult]:
             # comparisons are the other atoms: the verdict is the operator applied to the operand values of this assignment
             cmp_apply(prog),
             # an operand flagged false is dropped by the comparator: the flag must come from this evaluation, in condition position only
-            ep_operand(prog), _hv_truth(prog)]
+            ep_operand(prog), _hv_truth(prog), _qc_path(prog)]
